@@ -15,8 +15,8 @@ ANCHORS = [
 ]
 RULE = (
     "all non-empty subsets (size<=4; thorough <=5 over a wider range) of a small integer step "
-    "range, in sorted and scrambled order x container (int, list, int64/int32 array, integer "
-    "pd.Index, RangeIndex where expressible) x is_relative x cutoffs {-5,0,3,10} as int and "
+    "range, in sorted and scrambled order x container (int, list, int64/int32/int16/int8/uint8 array, list of int8 scalars, integer "
+    "pd.Index, RangeIndex where expressible) x is_relative x cutoffs {-5,0,3,10,300,-70000} as int and "
     "np.int64; every conversion/predicate compared with a pure-Python set reference. "
     "kind=hist: every sequence of <=2 (thorough <=3) conversions with different cutoffs on ONE "
     "object (lru_cache pollution). kind=reject: every listed malformed input with a valid twin. "
@@ -29,8 +29,8 @@ ASSUMPTIONS = [
     "Period/Datetime horizons excluded (pandas 2 removed Timestamp.freq)",
 ]
 
-CUTOFFS = [-5, 0, 3, 10]
-CONT = ["list", "arr64", "arr32", "index", "range", "int"]
+CUTOFFS = [-5, 0, 3, 10, 300, -70000]
+CONT = ["list", "arr64", "arr32", "index", "range", "int", "arr8", "arru8", "arr16", "list8"]
 
 
 def _rng_expressible(steps):
@@ -51,6 +51,8 @@ def gen_cases(tier, seed):
                 if cont == "int" and len(steps) != 1:
                     continue
                 if cont == "range" and not _rng_expressible(steps):
+                    continue
+                if cont == "arru8" and min(steps) < 0:
                     continue
                 for rel in (True, False):
                     yield dict(kind="algebra", steps=steps, scr=scr, cont=cont, rel=rel)
@@ -87,6 +89,11 @@ def _mk(steps, scr, cont):
         return np.array(s, dtype=np.int64)
     if cont == "arr32":
         return np.array(s, dtype=np.int32)
+    if cont in ("arr8", "arru8", "arr16"):
+        # narrow integer arrays (e.g. read from a file): cutoff + steps leaves their range
+        return np.array(s, dtype={"arr8": np.int8, "arru8": np.uint8, "arr16": np.int16}[cont])
+    if cont == "list8":
+        return [np.int8(v) for v in s]
     if cont == "index":
         return pd.Index(np.array(s, dtype=np.int64))
     if cont == "range":
